@@ -237,7 +237,23 @@ def reorder_glyphs(font: ttLib.TTFont, new_glyph_order: List[str]):
     # Cf. https://github.com/fonttools/fonttools/issues/2060
     require_fully_loaded(font)
 
+    # TTFont.setGlyphOrder leaves CFF alone (its table's setGlyphOrder is a no-op):
+    # the charstrings are written in charset order, so the charset has to follow.
+    # CharStrings is read lazily, against whatever the glyph order is by then, so
+    # bind the charstrings to their names before anything moves.
+    cff_top_dicts = [
+        font[tag].cff[font_name]
+        for tag in ("CFF ", "CFF2")
+        if tag in font.keys()
+        for font_name in font[tag].cff.fontNames
+    ]
+    for top_dict in cff_top_dicts:
+        top_dict.CharStrings
+
     font.setGlyphOrder(new_glyph_order)
+
+    for top_dict in cff_top_dicts:
+        top_dict.charset = list(new_glyph_order)
 
     coverage_containers = {"GDEF", "GPOS", "GSUB", "MATH"}
     for tag in coverage_containers:
